@@ -63,11 +63,11 @@ class Controller(object):
     # ---- worker side -------------------------------------------------------------------------
     def point(self):
         """yield: hand control to the controller, wait to be scheduled"""
-        t = _me()
+        t = self.tids.get(threading.get_ident())
         if t is None:
             return None
         if self.abort:
-            return t
+            raise Abort()
         self.back.release()
         self.go[t].acquire()
         if self.abort:
@@ -195,7 +195,8 @@ class SLock(object):
             self.owner = 'main'
             return self
         while True:
-            c.point()
+            if c.point() is None:
+                raise Abort()
             if self.owner is None:
                 self.owner = t
                 c.emit((1, t, 0, self.cid))
